@@ -1,7 +1,7 @@
 """
 C16 - implementation bodies are carried through conversions verbatim.
 
-Programs (E1): bodies = every sequence of <= 3 distinct statements from 10 templates (assignment using parameters, call
+Programs (E1): bodies = every sequence of <= 3 distinct statements from 11 templates (assignment using parameters, call
 with a keyword argument named like a parameter, for loop, conditional with early return, nested def, comprehension,
 leading string expression) x final statement {none, return name, return expression} x 4 interfaces x routes
 {function -> function, method -> method, argparse -> argparse with extra statements, function -> class __call__}.
@@ -27,6 +27,8 @@ STMTS = [
     ("local_return_type", "return_type = type(a)"),
     # the argparse description assigned from a name (not the literal interface description)
     ("description_from_name", "argument_parser.description = SUMMARY"),
+    # a chained assignment whose first target is the description: an implementation statement, it also binds ``banner``
+    ("description_chained", "argument_parser.description = banner = 'text'"),
     # the result of add_argument is kept in a name that later statements may use
     ("assigned_add_argument", "extra_action = argument_parser.add_argument('--extra', help='an extra')"),
 ]
